@@ -4,6 +4,7 @@ package main
 
 import (
 	"bufio"
+	"crypto/ed25519"
 	"encoding/json"
 	"fmt"
 	"math/rand"
@@ -100,18 +101,54 @@ func entID(prefix string, id int) string {
 		return "zz"
 	}
 
+	// service 1 has the id of key 1: keys and services are named independently of each other
+	if prefix == "s" && id == 1 {
+		return "k1"
+	}
+
 	return fmt.Sprintf("%s%d", prefix, id)
 }
 
 func (e *composerEnv) keyJSON(k CEnt) map[string]interface{} {
-	pk := e.pool.Get("p256", fmt.Sprintf("dock%dv%d", k.ID, k.Ver))
-	m := map[string]interface{}{
-		"id":       entID("k", k.ID),
-		"type":     "JsonWebKey2020",
-		"purposes": keyPurposes[(k.Ver-1)%3+1],
-		"publicKeyJwk": map[string]interface{}{
-			"kty": pk.JWK.Kty, "crv": pk.JWK.Crv, "x": pk.JWK.X, "y": pk.JWK.Y,
-		},
+	// the key type goes with the id: JSON Web Key (P-256), Ed25519 2020 with base58 material (verification
+	// purposes only), secp256k1 2019 as JWK
+	var m map[string]interface{}
+
+	switch k.ID % 3 {
+	case 2:
+		pk := e.pool.Get("ed", fmt.Sprintf("dock%dv%d", k.ID, k.Ver))
+		purposes := keyPurposes[(k.Ver-1)%3+1]
+
+		if (k.Ver-1)%3+1 == 2 {
+			purposes = []interface{}{"assertionMethod"}
+		}
+
+		m = map[string]interface{}{
+			"id":              entID("k", k.ID),
+			"type":            "Ed25519VerificationKey2020",
+			"purposes":        purposes,
+			"publicKeyBase58": refBase58([]byte(pk.Pub.(ed25519.PublicKey))),
+		}
+	case 0:
+		pk := e.pool.Get("k1", fmt.Sprintf("dock%dv%d", k.ID, k.Ver))
+		m = map[string]interface{}{
+			"id":       entID("k", k.ID),
+			"type":     "EcdsaSecp256k1VerificationKey2019",
+			"purposes": keyPurposes[(k.Ver-1)%3+1],
+			"publicKeyJwk": map[string]interface{}{
+				"kty": pk.JWK.Kty, "crv": pk.JWK.Crv, "x": pk.JWK.X, "y": pk.JWK.Y,
+			},
+		}
+	default:
+		pk := e.pool.Get("p256", fmt.Sprintf("dock%dv%d", k.ID, k.Ver))
+		m = map[string]interface{}{
+			"id":       entID("k", k.ID),
+			"type":     "JsonWebKey2020",
+			"purposes": keyPurposes[(k.Ver-1)%3+1],
+			"publicKeyJwk": map[string]interface{}{
+				"kty": pk.JWK.Kty, "crv": pk.JWK.Crv, "x": pk.JWK.X, "y": pk.JWK.Y,
+			},
+		}
 	}
 
 	e.mu.Lock()
